@@ -7,10 +7,83 @@ package traefikoidc
 // file stops compiling, and bin/check reports the broken tie ("harness build").
 
 import (
+	"container/list"
+	"fmt"
 	"math"
+	"reflect"
 	"sort"
+	"sync"
 	"time"
+	"unsafe"
 )
+
+// The fields of Cache are found BY TYPE, not by name, so that a rename of an
+// unexported field (or of the list-entry type) does not break the tie:
+//   the map[string]CacheItem, the *list.List, the map[string]*list.Element,
+//   the sync.RWMutex and the first int field (the capacity).
+// A Cache restructured beyond that makes vfCacheParts panic: the harness run
+// fails and the check reports the broken tie.
+type vfCacheParts struct {
+	items   *map[string]CacheItem
+	order   **list.List
+	elems   *map[string]*list.Element
+	mutex   *sync.RWMutex
+	maxSize *int
+}
+
+func vfPartsOf(c *Cache) vfCacheParts {
+	var p vfCacheParts
+	v := reflect.ValueOf(c).Elem()
+	for i := 0; i < v.NumField(); i++ {
+		f := v.Field(i)
+		ptr := unsafe.Pointer(f.UnsafeAddr())
+		switch f.Type() {
+		case reflect.TypeOf(map[string]CacheItem(nil)):
+			if p.items == nil {
+				p.items = (*map[string]CacheItem)(ptr)
+			}
+		case reflect.TypeOf((*list.List)(nil)):
+			if p.order == nil {
+				p.order = (**list.List)(ptr)
+			}
+		case reflect.TypeOf(map[string]*list.Element(nil)):
+			if p.elems == nil {
+				p.elems = (*map[string]*list.Element)(ptr)
+			}
+		case reflect.TypeOf(sync.RWMutex{}):
+			if p.mutex == nil {
+				p.mutex = (*sync.RWMutex)(ptr)
+			}
+		case reflect.TypeOf(int(0)):
+			if p.maxSize == nil {
+				p.maxSize = (*int)(ptr)
+			}
+		}
+	}
+	if p.items == nil || p.order == nil || p.elems == nil || p.mutex == nil || p.maxSize == nil {
+		panic(fmt.Sprintf("verif harness: Cache no longer has the expected parts (items map, usage list, element map, RWMutex, capacity): %+v", p))
+	}
+	return p
+}
+
+// vfEntryKey: the key stored in an element of the usage list (a struct whose first string field is the key, or a string)
+func vfEntryKey(x interface{}) (string, bool) {
+	v := reflect.ValueOf(x)
+	if v.Kind() == reflect.Ptr && !v.IsNil() {
+		v = v.Elem()
+	}
+	switch v.Kind() {
+	case reflect.String:
+		return v.String(), true
+	case reflect.Struct:
+		for i := 0; i < v.NumField(); i++ {
+			if v.Field(i).Kind() == reflect.String {
+				return v.Field(i).String(), true
+			}
+		}
+	}
+	return "", false
+}
 
 // ---- Cache
 
@@ -29,25 +102,28 @@ type vfCacheView struct {
 func vfNewCache(capacity int) *Cache {
 	c := NewCache()
 	c.Close() // stop the 5-minute auto-cleanup goroutine: the harness calls Cleanup explicitly
-	c.mutex.Lock()
-	c.maxSize = capacity
-	c.mutex.Unlock()
+	p := vfPartsOf(c)
+	p.mutex.Lock()
+	*p.maxSize = capacity
+	p.mutex.Unlock()
 	return c
 }
 
 func vfCacheMaxSize(c *Cache) int {
-	c.mutex.Lock()
-	defer c.mutex.Unlock()
-	return c.maxSize
+	p := vfPartsOf(c)
+	p.mutex.Lock()
+	defer p.mutex.Unlock()
+	return *p.maxSize
 }
 
 // vfCacheAdvance lets d "elapse" for the cache: every entry's expiry moves d closer.
 func vfCacheAdvance(c *Cache, d time.Duration) {
-	c.mutex.Lock()
-	defer c.mutex.Unlock()
-	for k, it := range c.items {
+	p := vfPartsOf(c)
+	p.mutex.Lock()
+	defer p.mutex.Unlock()
+	for k, it := range *p.items {
 		it.ExpiresAt = it.ExpiresAt.Add(-d)
-		c.items[k] = it
+		(*p.items)[k] = it
 	}
 }
 
@@ -56,18 +132,20 @@ func vfRoundMin(d time.Duration) int64 {
 }
 
 func vfCacheSnapshot(c *Cache, valOf func(interface{}) int64) vfCacheView {
-	c.mutex.Lock()
-	defer c.mutex.Unlock()
+	p := vfPartsOf(c)
+	p.mutex.Lock()
+	defer p.mutex.Unlock()
 	now := time.Now()
 	v := vfCacheView{Order: []string{}, Items: []vfCacheItemView{}, Elems: []string{}}
-	for e := c.order.Front(); e != nil; e = e.Next() {
-		v.Order = append(v.Order, e.Value.(lruEntry).key)
+	for e := (*p.order).Front(); e != nil; e = e.Next() {
+		k, _ := vfEntryKey(e.Value)
+		v.Order = append(v.Order, k)
 	}
-	for k, it := range c.items {
+	for k, it := range *p.items {
 		v.Items = append(v.Items, vfCacheItemView{Key: k, Val: valOf(it.Value), RemMin: vfRoundMin(it.ExpiresAt.Sub(now))})
 	}
 	sort.Slice(v.Items, func(i, j int) bool { return v.Items[i].Key < v.Items[j].Key })
-	for k := range c.elems {
+	for k := range *p.elems {
 		v.Elems = append(v.Elems, k)
 	}
 	sort.Strings(v.Elems)
@@ -75,7 +153,8 @@ func vfCacheSnapshot(c *Cache, valOf func(interface{}) int64) vfCacheView {
 }
 
 func vfCacheLen(c *Cache) int {
-	c.mutex.Lock()
-	defer c.mutex.Unlock()
-	return len(c.items)
+	p := vfPartsOf(c)
+	p.mutex.Lock()
+	defer p.mutex.Unlock()
+	return len(*p.items)
 }
